@@ -32,7 +32,7 @@ deriving DecidableEq, Repr
 
 abbrev Sym := List Item
 
-def lits (s : String) : Sym := s.toList.map .lit
+def lits (s : List Char) : Sym := s.map .lit
 def zeroBytes (n : Nat) : Sym := (List.replicate (2 * n) '0').map .lit
 def fld (r : Role) : Sym := [.arg r]
 
@@ -48,40 +48,40 @@ inductive Kind where
 deriving DecidableEq, Repr
 
 /-- common header: magic, length, version, opcode, session, 12 fixed bytes, timestamp, 10 zeros, f0fe -/
-def header (len ver opc : String) (sess : Sym) (fixed12 : String) : Sym :=
-  lits "fef0" ++ lits len ++ lits ver ++ lits opc ++ sess ++ lits fixed12 ++ fld .ts ++ zeroBytes 10 ++ lits "f0fe"
+def header (len ver opc : List Char) (sess : Sym) (fixed12 : List Char) : Sym :=
+  lits cs!"fef0" ++ lits len ++ lits ver ++ lits opc ++ sess ++ lits fixed12 ++ fld .ts ++ zeroBytes 10 ++ lits cs!"f0fe"
 
-def t1 := "340001000000000000000000"     -- 34 00 01 00 then 8 zero bytes   (type 1)
-def t2 := "390001000000000000000000"     -- 39 00 01 00 …                    (type 2 state query)
-def tb := "000001000000000000000000"     -- 00 00 01 00 …                    (breeze)
+def t1 : List Char := cs!"340001000000000000000000"     -- 34 00 01 00 then 8 zero bytes   (type 1)
+def t2 : List Char := cs!"390001000000000000000000"     -- 39 00 01 00 …                    (type 2 state query)
+def tb : List Char := cs!"000001000000000000000000"     -- 00 00 01 00 …                    (breeze)
 
 /-- reference layout per kind.  Frames whose length depends on the payload (and the two runner
     commands) carry `0000` in the length position here; their length is set by `withLength`. -/
 def refSym : Kind → Sym
-  | .login1 => header "5200" "0232" "a100" (zeroBytes 4) t1 ++ fld .key ++ zeroBytes 36 ++ lits "00"
-  | .login2 => header "3000" "0305" "a600" (zeroBytes 4) "ff0301000000000000000000" ++ fld .did ++ lits "00"
-  | .getState1 => header "3000" "0232" "0103" (fld .sid) t1 ++ fld .did ++ lits "00"
-  | .getState2 => header "3000" "0305" "0103" (fld .sid) t2 ++ fld .did ++ lits "00"
-  | .control => header "5d00" "0232" "0102" (fld .sid) t1 ++ fld .did ++ zeroBytes 36 ++
-      lits "00" ++ lits "0106" ++ lits "00" ++ lits "0" ++ fld .onoff ++ lits "00" ++ fld .timer
-  | .setAutoOff => header "5b00" "0232" "0102" (fld .sid) t1 ++ fld .did ++ zeroBytes 36 ++
-      lits "00" ++ lits "0404" ++ lits "00" ++ fld .autoOff
-  | .setName => header "7400" "0232" "0202" (fld .sid) t1 ++ fld .did ++ zeroBytes 36 ++ lits "00" ++ fld .name
-  | .getSchedules => header "5700" "0232" "0102" (fld .sid) t1 ++ fld .did ++ zeroBytes 36 ++ lits "00" ++ lits "0600" ++ lits "00"
-  | .deleteSchedule => header "5800" "0232" "0102" (fld .sid) t1 ++ fld .did ++ zeroBytes 36 ++
-      lits "00" ++ lits "0801" ++ lits "00" ++ lits "0" ++ fld .slot
-  | .createSchedule => header "6300" "0232" "0102" (fld .sid) t1 ++ fld .did ++ zeroBytes 36 ++
-      lits "00" ++ lits "030c" ++ lits "00" ++ lits "ff" ++ fld .sched
-  | .stop => lits "fef0" ++ lits "0000" ++ lits "0305" ++ lits "0102" ++ fld .sid ++ lits "232301" ++ zeroBytes 9 ++
-      fld .ts ++ zeroBytes 10 ++ lits "f0fe" ++ fld .did ++ zeroBytes 36 ++ lits "3702" ++ lits "0200" ++ lits "0000"
-  | .setPosition => lits "fef0" ++ lits "0000" ++ lits "0305" ++ lits "0102" ++ fld .sid ++ lits "290401" ++ zeroBytes 9 ++
-      fld .ts ++ zeroBytes 10 ++ lits "f0fe" ++ fld .did ++ zeroBytes 36 ++ lits "3701" ++ lits "0100" ++ fld .pos
-  | .breezeCommand => header "0000" "0305" "0102" (fld .sid) tb ++ fld .did ++ zeroBytes 36 ++ lits "3701" ++ fld .irLen ++ fld .irCmd
-  | .breezeStatus => header "0000" "0305" "010e" (fld .sid) tb ++ fld .did ++ zeroBytes 36 ++ lits "3701" ++ lits "0003" ++
-      lits "0b04" ++ lits "00" ++ fld .bState ++ fld .bMode ++ fld .bTemp ++ fld .bFan ++ fld .bSwing
+  | .login1 => header cs!"5200" cs!"0232" cs!"a100" (zeroBytes 4) t1 ++ fld .key ++ zeroBytes 36 ++ lits cs!"00"
+  | .login2 => header cs!"3000" cs!"0305" cs!"a600" (zeroBytes 4) cs!"ff0301000000000000000000" ++ fld .did ++ lits cs!"00"
+  | .getState1 => header cs!"3000" cs!"0232" cs!"0103" (fld .sid) t1 ++ fld .did ++ lits cs!"00"
+  | .getState2 => header cs!"3000" cs!"0305" cs!"0103" (fld .sid) t2 ++ fld .did ++ lits cs!"00"
+  | .control => header cs!"5d00" cs!"0232" cs!"0102" (fld .sid) t1 ++ fld .did ++ zeroBytes 36 ++
+      lits cs!"00" ++ lits cs!"0106" ++ lits cs!"00" ++ lits cs!"0" ++ fld .onoff ++ lits cs!"00" ++ fld .timer
+  | .setAutoOff => header cs!"5b00" cs!"0232" cs!"0102" (fld .sid) t1 ++ fld .did ++ zeroBytes 36 ++
+      lits cs!"00" ++ lits cs!"0404" ++ lits cs!"00" ++ fld .autoOff
+  | .setName => header cs!"7400" cs!"0232" cs!"0202" (fld .sid) t1 ++ fld .did ++ zeroBytes 36 ++ lits cs!"00" ++ fld .name
+  | .getSchedules => header cs!"5700" cs!"0232" cs!"0102" (fld .sid) t1 ++ fld .did ++ zeroBytes 36 ++ lits cs!"00" ++ lits cs!"0600" ++ lits cs!"00"
+  | .deleteSchedule => header cs!"5800" cs!"0232" cs!"0102" (fld .sid) t1 ++ fld .did ++ zeroBytes 36 ++
+      lits cs!"00" ++ lits cs!"0801" ++ lits cs!"00" ++ lits cs!"0" ++ fld .slot
+  | .createSchedule => header cs!"6300" cs!"0232" cs!"0102" (fld .sid) t1 ++ fld .did ++ zeroBytes 36 ++
+      lits cs!"00" ++ lits cs!"030c" ++ lits cs!"00" ++ lits cs!"ff" ++ fld .sched
+  | .stop => lits cs!"fef0" ++ lits cs!"0000" ++ lits cs!"0305" ++ lits cs!"0102" ++ fld .sid ++ lits cs!"232301" ++ zeroBytes 9 ++
+      fld .ts ++ zeroBytes 10 ++ lits cs!"f0fe" ++ fld .did ++ zeroBytes 36 ++ lits cs!"3702" ++ lits cs!"0200" ++ lits cs!"0000"
+  | .setPosition => lits cs!"fef0" ++ lits cs!"0000" ++ lits cs!"0305" ++ lits cs!"0102" ++ fld .sid ++ lits cs!"290401" ++ zeroBytes 9 ++
+      fld .ts ++ zeroBytes 10 ++ lits cs!"f0fe" ++ fld .did ++ zeroBytes 36 ++ lits cs!"3701" ++ lits cs!"0100" ++ fld .pos
+  | .breezeCommand => header cs!"0000" cs!"0305" cs!"0102" (fld .sid) tb ++ fld .did ++ zeroBytes 36 ++ lits cs!"3701" ++ fld .irLen ++ fld .irCmd
+  | .breezeStatus => header cs!"0000" cs!"0305" cs!"010e" (fld .sid) tb ++ fld .did ++ zeroBytes 36 ++ lits cs!"3701" ++ lits cs!"0003" ++
+      lits cs!"0b04" ++ lits cs!"00" ++ fld .bState ++ fld .bMode ++ fld .bTemp ++ fld .bFan ++ fld .bSwing
 
 /-- the schedule record inside a create-schedule frame: 01 | day mask | 01 | start LE32 | end LE32 -/
-def schedSym : Sym := lits "01" ++ fld .days ++ lits "01" ++ fld .start ++ fld .stop
+def schedSym : Sym := lits cs!"01" ++ fld .days ++ lits cs!"01" ++ fld .start ++ fld .stop
 
 /-- kinds whose total length is written by the sender after assembling the frame -/
 def Kind.computedLength : Kind → Bool
@@ -90,7 +90,7 @@ def Kind.computedLength : Kind → Bool
 
 /-- set bytes 2-3 of an assembled (unsigned) frame text to the LE16 of its signed length -/
 def withLength (body : List Char) : List Char :=
-  "fef0".toList ++ hexlify (le16 (body.length / 2 + 4)) ++ body.drop 8
+  cs!"fef0" ++ hexlify (le16 (body.length / 2 + 4)) ++ body.drop 8
 
 /-- semantic operations: the caller's arguments, already in the protocol's units -/
 inductive Op where
@@ -123,7 +123,7 @@ def Op.accepted : Op → Bool
   | .breezeStatus st mode temp fan swing => decide (st < 2 ∧ mode < 256 ∧ temp < 256 ∧ fan < 16 ∧ swing < 16)
   | _ => true
 
-def hex2 (n : Nat) : List Char := hexByte n
+def hexB (n : Nat) : List Char := hexByte n
 
 /-- reference encoders of the arguments -/
 def specEnv (op : Op) (sid ts did key : List Char) : Role → List Char
@@ -134,17 +134,17 @@ def specEnv (op : Op) (sid ts did key : List Char) : Role → List Char
   | .name => match op with | .setName _ u => hexlify (u ++ List.replicate (32 - u.length) 0) | _ => []
   | .slot => match op with | .deleteSchedule s => [hexDigit s] | _ => []
   | .sched => match op with
-      | .createSchedule mask a b => "01".toList ++ hex2 mask ++ "01".toList ++ hexlify (le32 a) ++ hexlify (le32 b)
+      | .createSchedule mask a b => cs!"01" ++ hexB mask ++ cs!"01" ++ hexlify (le32 a) ++ hexlify (le32 b)
       | _ => []
-  | .days => match op with | .createSchedule mask _ _ => hex2 mask | _ => []
+  | .days => match op with | .createSchedule mask _ _ => hexB mask | _ => []
   | .start => match op with | .createSchedule _ a _ => hexlify (le32 a) | _ => []
   | .stop => match op with | .createSchedule _ _ b => hexlify (le32 b) | _ => []
-  | .pos => match op with | .setPosition p => hex2 p | _ => []
+  | .pos => match op with | .setPosition p => hexB p | _ => []
   | .irLen => match op with | .breezeCommand p => hexlify (le16 p.length) | _ => []
   | .irCmd => match op with | .breezeCommand p => hexlify p | _ => []
-  | .bState => match op with | .breezeStatus s _ _ _ _ => hex2 s | _ => []
-  | .bMode => match op with | .breezeStatus _ m _ _ _ => hex2 m | _ => []
-  | .bTemp => match op with | .breezeStatus _ _ t _ _ => hex2 t | _ => []
+  | .bState => match op with | .breezeStatus s _ _ _ _ => hexB s | _ => []
+  | .bMode => match op with | .breezeStatus _ m _ _ _ => hexB m | _ => []
+  | .bTemp => match op with | .breezeStatus _ _ t _ _ => hexB t | _ => []
   | .bFan => match op with | .breezeStatus _ _ _ f _ => [hexDigit f] | _ => []
   | .bSwing => match op with | .breezeStatus _ _ _ _ s => [hexDigit s] | _ => []
 
@@ -163,7 +163,7 @@ def isHexText (cs : List Char) : Bool := cs.all (fun c => (hexVal? c).isSome)
     transfers it to `wellFormedB` on the bytes) -/
 def wfHex (s : List Char) : Prop :=
   88 ≤ s.length ∧ s.length % 2 = 0 ∧ isHexText s = true ∧
-  s.take 4 = "fef0".toList ∧ slice s 4 8 = hexlify (le16 (s.length / 2)) ∧ slice s 76 80 = "f0fe".toList ∧
+  s.take 4 = cs!"fef0" ∧ slice s 4 8 = hexlify (le16 (s.length / 2)) ∧ slice s 76 80 = cs!"f0fe" ∧
   ∃ bs, unhexlify (s.take (s.length - 8)) = some bs ∧ s.drop (s.length - 8) = hexlify (sigBytes bs)
 
 end Spec
